@@ -148,7 +148,8 @@ static void run_seq_body(const Plan &p, World &w, Ctx &x, const SeqOpts &so) {
         if (ts && w.sut_sees_mutex() && w.sut_mutex() == nullptr) {
             // a constructor asked for a thread-safe container and returned one without a lock (e.g. after the allocation of the
             // mutex failed): that is neither "completed correctly" nor "reported failure"
-            x.fail("no-lock", x.o_enomem ? "enomem" : "lock", "the constructor returned a container created with the thread-safe option that has no lock" + std::string(fired ? " (after an injected allocation failure)" : ""));
+            // (every call on it still returns with the lock depth unchanged: C15's and C13's business, not C14's)
+            x.fail("no-lock", fired ? "enomem" : "linz", "the constructor returned a container created with the thread-safe option that has no lock" + std::string(fired ? " (after an injected allocation failure)" : ""));
         }
         for (size_t i = 0; i < ops.size(); i++) {
             x.cur_op = (int)i; x.cur_opname = w.opnames()[ops[i].k];
@@ -168,7 +169,9 @@ static void run_seq_body(const Plan &p, World &w, Ctx &x, const SeqOpts &so) {
             int allocs = sim_op_end();
             if (held) {
                 int dc0 = sim_take_depth_change();
-                if (dc0 != 0 || sim_lock_depth() != d0 + 1) {
+                // (a depth below zero proves that an acquisition went through a primitive the simulator does not see: no verdict)
+                if (sim_lock_depth() < 0) x.st.add("lock.unobserved_acquire");
+                else if (dc0 != 0 || sim_lock_depth() != d0 + 1) {
                     x.fail("lock-depth", "lock", w.render(op) + " called while the client held the lock returned " + got.show() + " with the lock depth changed (the client's critical section is open)");
                 }
                 w.sut_force_unlock();
@@ -186,11 +189,13 @@ static void run_seq_body(const Plan &p, World &w, Ctx &x, const SeqOpts &so) {
             }
             if (ts) {
                 int dc = sim_take_depth_change();
-                if (dc != 0 && sim_lock_depth() == d0) {
+                if (sim_lock_depth() < 0) x.st.add("lock.unobserved_acquire");
+                else if (dc != 0 && sim_lock_depth() == d0) {
                     x.fail("lock-depth", "lock", "inside " + w.render(op) + " a single call returned with the container lock depth changed by " + num(dc) + " (entered with the lock held by the caller)");
                 }
                 int d1 = sim_lock_depth();
-                if (d1 != d0) {
+                if (d1 < 0) x.st.add("lock.unobserved_acquire");
+                else if (d1 != d0) {
                     int leaked = d1 - d0;
                     // release what the call leaked so that teardown does not spin in Q_MUTEX_DESTROY
                     for (int k = 0; k < leaked; k++) w.sut_force_unlock();
@@ -205,6 +210,14 @@ static void run_seq_body(const Plan &p, World &w, Ctx &x, const SeqOpts &so) {
                         x.fail("probe-starved", "lock", "after " + w.render(op) + " another thread's operation did not complete within 3 spin budgets");
                     }
                 }
+            }
+            if (fired > 0 && w.result_is_ambiguous(op)) {
+                // completed or given up? the contents decide (the model has already applied the operation)
+                std::string sd, after = model->dump(), bef = before ? before->dump() : after;
+                { Bookkeeping bk; sd = w.sut_dump(x); }
+                if (sd == after) { if (!exp.fail) got.fail = false; }     // completed: what it returned must then be the right value
+                else if (sd == bef) { model.reset(before.release()); x.st.add("fault.reported_failure"); got = exp; fired = -1; }
+                else x.fail("state-changed-after-failed-call", "enomem", w.render(op) + " under allocation fault #" + num(op.fk) + (op.fm == 2 ? " (sticky)" : "") + " neither completed nor left the contents alone: table " + hexs(sd, 100) + " before " + hexs(bef, 100) + " completed " + hexs(after, 100));
             }
             if (got != exp) {
                 if (fired > 0 && got.fail) {
@@ -233,7 +246,8 @@ static void run_seq_body(const Plan &p, World &w, Ctx &x, const SeqOpts &so) {
         x.verify_pool("before the container was freed");
         x.cur_opname = "free";
         { sim_op_begin((int)ops.size(), 0, 0); w.sut_destroy(x); sim_op_end(); }
-        if (ts && sim_lock_depth() != 0) x.fail("lock-depth", "lock", "free() returned with lock depth " + num(sim_lock_depth()));
+        if (ts && sim_lock_depth() < 0) x.st.add("lock.unobserved_acquire");
+        if (ts && sim_lock_depth() > 0) x.fail("lock-depth", "lock", "free() returned with lock depth " + num(sim_lock_depth()));
         x.verify_pool("after the container was freed");
         x.release_pool();
         std::string d; size_t live = sim_ledger_live(&d);
@@ -340,7 +354,8 @@ static void run_threads_body(const Plan &p, World &w, Ctx &x, RunOut &out, bool 
             x.cur_opname = "schedule";
             x.fail("no-progress", "lock", "every live thread waits for the container lock and nobody will release it");
         }
-        if (so.leaked_depth != 0) {
+        if (so.leaked_depth < 0) x.st.add("lock.unobserved_acquire");
+        if (so.leaked_depth > 0) {
             x.cur_opname = "schedule";
             x.fail("lock-depth", "lock", "a client thread finished its operations still holding the container lock");
         }
